@@ -78,6 +78,21 @@ def run(ctx):
         except FD.Unknown as e:
             raise AnalysisBroken("R15.1: %s not evaluable: %s" % (q, e))
         wname = "" if world is None else " [event of type '%s', old value %s new value]" % (world["tag"], "==" if world["same"] else "!=")
+        if world is None:
+            # per call: handed the same event a second time, the function sends a second message (nothing that an
+            # earlier call left behind may suppress it)
+            n_cb1 = len(r.callbacks)
+            try:
+                r.run(fn, {u.params(fn)[0]["id"]: ("msg", "E")})
+            except FD.Unknown as e:
+                raise AnalysisBroken("R15.1: %s not evaluable a second time: %s" % (q, e))
+            ctx.ob("R15.1", q.split("::")[-1] + " [called twice with one event]", n_cb1 == 1 and len(r.callbacks) == 2, site=A.where(fn),
+                   detail={"callback_invocations_first_call": n_cb1, "after_second_call": len(r.callbacks)},
+                   key="R15.1:%s:twice" % q.split("::")[-1],
+                   what="%s, called twice with the same event, invokes the callback %d and then %d time(s): every call must send its message (an undo after a redo, or of a second change from the same old value, repeats the bytes of an earlier one)" % (
+                       q.split("::")[-1], n_cb1, len(r.callbacks) - n_cb1))
+            del r.callbacks[1:]
+            del r.amessages[max(1, r.callbacks[0]["messages_built_before"] if r.callbacks else 1):]
         sent = None
         if len(r.callbacks) == 1:
             cbk = r.callbacks[0]
